@@ -61,6 +61,8 @@ func (s *State) clone() *State {
 type retRec struct {
 	st   *State
 	vals []Val
+	// ndefer: how many defer statements had been executed when this return was reached (-1: all)
+	ndefer int
 }
 
 type jumpFrame struct {
@@ -627,7 +629,7 @@ func (e *Exec) ret(st *State, s *ast.ReturnStmt) {
 			st.vars[r] = vals[i]
 		}
 	}
-	f.returns = append(f.returns, &retRec{st: st.clone(), vals: vals})
+	f.returns = append(f.returns, &retRec{st: st.clone(), vals: vals, ndefer: len(f.defers)})
 	st.dead = true
 }
 
@@ -993,7 +995,9 @@ func (e *Exec) updatePath(st *State, base Val, path []int, v Val, pos token.Pos)
 	e.sr.sortOf(base.GT)
 	si := e.sr.structInfoOf(base.T.Sort)
 	if si == nil {
-		e.fail(pos, "field update on opaque struct %s", base.GT)
+		// a library struct whose fields are not modelled: the update yields an arbitrary value of that type
+		e.note("field update on opaque struct " + typeKey(base.GT) + " yields an arbitrary value")
+		return e.freshVal("opaque_upd", base.GT)
 	}
 	idx := path[0]
 	f := stt.Field(idx)
